@@ -82,6 +82,9 @@ func genCfg(rt *rapid.T, i int, dir string) lcx.Cfg {
 	if rapid.IntRange(0, 2).Draw(rt, "smallSpace") > 0 {
 		c.GenSpace = 48
 	}
+	// the full lifecycler reports ready only after having been ready for this long (every probe in between
+	// looks at the ring again)
+	c.MinReady = rapid.SampledFrom([]time.Duration{0, 0, 2 * time.Second, 6 * time.Second}).Draw(rt, "minReady")
 	if rapid.IntRange(0, 3).Draw(rt, "tokensFile") == 0 {
 		c.TokensPath = filepath.Join(dir, c.ID+".tokens")
 	}
